@@ -9,7 +9,8 @@
      deliver_ev {k, ok}      same on the CoAP event channel
      corrupt  {ok}           a corrupted message was handed over
      abandon                 the in-flight request was cancelled / timed out
-     rekey                   fresh keys were installed *)
+     rekey   {fresh}         fresh keys were installed (fresh, when logged: the controller's ephemeral key of this
+                             pair-verify differs from those of all earlier ones) *)
 EXTENDS SessionCounters, Json, IOUtils, TLCExt
 
 Traces == ndJsonDeserialize(IOEnv.TRACE_FILE)
@@ -29,7 +30,9 @@ TrDeliver == IsEvent("deliver") /\ Deliver(E.k) /\ (E.ok = Grew)
 TrDeliverEv == IsEvent("deliver_ev") /\ DeliverEvent(E.k) /\ (E.ok = Grew)
 TrCorrupt == IsEvent("corrupt") /\ ~E.ok /\ DeliverCorrupt
 TrAbandon == IsEvent("abandon") /\ Abandon
-TrRekey == IsEvent("rekey") /\ Rekey
+\* a re-key installs keys no earlier epoch used (that is what makes the per-epoch nonce bookkeeping sound): where the
+\* harness can observe the controller's contribution to the session key it logs whether it is new
+TrRekey == IsEvent("rekey") /\ Rekey /\ (("fresh" \in DOMAIN E) => E.fresh)
 TNext == TrEnc \/ TrProduce \/ TrProduceEv \/ TrDeliver \/ TrDeliverEv \/ TrCorrupt \/ TrAbandon \/ TrRekey
 TSpec == TInit /\ [][TNext]_tvars
 
